@@ -394,7 +394,7 @@ pub fn run(ctx: &Ctx, findings: &Findings) -> PropReport {
     let mut subs = vec![];
     if let Some(path) = &ctx.replay {
         let v: serde_json::Value = serde_json::from_str(&std::fs::read_to_string(path).expect("replay file")).expect("json");
-        for name in ["chains", "history"] {
+        for name in ["chains", "history", "enumerated"] {
             if let Some(r) = replay_case::<Case>(ctx, findings, name, &v, &check_case) {
                 subs.push(r);
             }
@@ -403,6 +403,7 @@ pub fn run(ctx: &Ctx, findings: &Findings) -> PropReport {
         let n = ctx.cases(12000, 240000);
         subs.push(drive(ctx, findings, "chains", RULE, n, chain_strategy, &check_case));
         subs.push(drive(ctx, findings, "history", RULE, n, || case_strategy(ctx.tier.pick(14, 22)), &check_case));
+        subs.push(drive_enum(ctx, findings, "enumerated", crate::engines::brokersim::RULE_ENUM, crate::engines::brokersim::enumerated_cases(ctx.tier.pick(3, 5)), true, &check_case));
     }
     PropReport {
         level: "exploration",
